@@ -48,6 +48,7 @@ def step (st : State) (line : String) : State × String :=
   | "stab" :: rest => (st, Drv.Stab.run rest)
   | "mf" :: rest => let (w, o) := Drv.ModuleFwd.run st.mf rest; ({ st with mf := w }, o)
   | "gf" :: rest => (st, Drv.Formulas.run rest)
+  | "gs" :: rest => (st, Drv.Formulas.runStep rest)
   | "reset" :: _ => ({}, "ok")
   | _ => (st, "bad-op")
 
